@@ -258,7 +258,8 @@ func StepFn(step string, s int) int {
 func (fs *fnset) fnStep(s int) (int, error) {
 	fs.c.enter(0, s)
 	if fs.fail[s] {
-		return s, failure{s}
+		// a failed step still returns a value: Unfold goes on from it under Try (the stream "jumps")
+		return s + 100, failure{s}
 	}
 	return StepFn(fs.step, s), nil
 }
